@@ -361,3 +361,16 @@ PROPS["C08"] = _tx("C08", ["C08_queue_initial", "C08_queue_invariant", "C08_requ
     " The immediate-procedure clause ('a newly detected gap is requested at the next opportunity or after the delay if it "
     "persists') is covered by the model's branch structure and the lock-step stream, not by a separate theorem; 'inside the "
     "file' for requests queued before EOF holds when the peer sent no data beyond the EOF size (else FilesizeError).")
+
+PROPS["C01"] = _tx("C01", ["C01_staged_file_is_source", "C01_store_is_stage_step", "C01_delivered_file_is_staged_file",
+                           "C01_complete_only_if_all_received", "C01_sender_emits_truthful_data"], ["recv", "send", "segments", "checksum"],
+    "Proof, assume-guarantee in two halves: (receiver) for every source file and every sequence of truthful file data PDUs - "
+    "any order, duplication, overlap, re-segmentation - the staged file IS the source file as soon as the bookkeeping says "
+    "[0,|f|) is complete (no appeal to the checksum, so checksum-neutral contents and the null checksum are covered); the model's "
+    "store_file_data is exactly that staging step, a finalisation stores the staged content under the destination name and "
+    "reports Complete only with metadata and all bytes present; (sender) every file data PDU a sender for f emits is truthful "
+    "for f (C07). Lock-step correspondence for both machines plus an oracle on the real receiver: whenever all inputs of a "
+    "script are truthful for a file, a successful Finished indication implies destination == source.",
+    " PARTIAL: the composition of the two halves over the two-machine system with a lossy/reordering link ('the link delivers "
+    "only what was sent', C04's 'sender success implies receiver success') is argued in DESIGN.md, not mechanised; real task "
+    "interleavings are outside the model.")
